@@ -698,7 +698,33 @@ func deferKeepsError(c *core.Ctx, r *core.Report) {
 									}
 								}
 							}
+							// `a && b` on the then-side and `a || b` on the else-side hold conjunct by conjunct
+							var flat []guard
+							var split func(e ast.Expr, then bool)
+							split = func(e ast.Expr, then bool) {
+								if be, ok := ast.Unparen(e).(*ast.BinaryExpr); ok && ((be.Op == token.LAND && then) || (be.Op == token.LOR && !then)) {
+									split(be.X, then)
+									split(be.Y, then)
+									return
+								}
+								flat = append(flat, guard{e, then})
+							}
 							for _, g := range gs {
+								split(g.cond, g.then)
+							}
+							// errors.Join(result, …) keeps whatever is being returned
+							if call, isCall := ast.Unparen(rhs).(*ast.CallExpr); isCall && len(as.Rhs) == len(as.Lhs) {
+								if sel, isSel := call.Fun.(*ast.SelectorExpr); isSel {
+									if fn, _ := info.Uses[sel.Sel].(*types.Func); fn != nil && fn.Pkg() != nil && fn.Pkg().Path() == "errors" && fn.Name() == "Join" {
+										for _, a := range call.Args {
+											if isRes(a) == v {
+												ok, why = true, "joined with the error being returned"
+											}
+										}
+									}
+								}
+							}
+							for _, g := range flat {
 								be, isBin := ast.Unparen(g.cond).(*ast.BinaryExpr)
 								if !isBin {
 									continue
